@@ -238,8 +238,10 @@ def run_check(prop, tier, seed, nshards=None, replay=None, quiet=False):
                   violations=new)
         if getattr(mod, 'EXHAUSTIVE_NOTE', None):
             ev['coverage']['exhaustive_scope'] = mod.EXHAUSTIVE_NOTE.get(tier, '')
-        os.makedirs(os.path.join(VERIF, 'evidence'), exist_ok=True)
-        with open(os.path.join(VERIF, 'evidence', prop + '.json'), 'w') as f:
+        # evidence of a run against another tree (mutant validation) never overwrites the real one
+        evdir = os.path.join(VERIF, 'evidence') if REPO == '/repo' else os.path.join(VERIF, '.scratch-mut', 'evidence')
+        os.makedirs(evdir, exist_ok=True)
+        with open(os.path.join(evdir, prop + '.json'), 'w') as f:
             json.dump(ev, f, indent=1, sort_keys=True)
 
     for ln in lines:
